@@ -2,23 +2,23 @@
 # usage: tools/confirm_mutant.sh <prop> <k>
 # Confirms a seeded change independently in a scratch worktree of /repo HEAD:
 # applies, builds, runs the pinned suite, runs the demo with and without it.
-# Writes /tmp/mut/confirm/<prop>-<k>.json and removes the worktree.
+# Writes ${MUT:-/tmp/mut}/confirm/<prop>-<k>.json and removes the worktree.
 set -u
 prop=$1; k=$2
 [ "$prop" = C17 ] && export BTREES_VERIF=1
-src=/tmp/mut/out/$prop/$k
+src=${MUT:-/tmp/mut}/out/$prop/$k
 patch=$src/patch.diff
 [ -f $src/patch.rebased.diff ] && patch=$src/patch.rebased.diff
-wt=/tmp/mut/confirm-wt-$prop-$k
-mkdir -p /tmp/mut/confirm
+wt=${MUT:-/tmp/mut}/confirm-wt-$prop-$k
+mkdir -p ${MUT:-/tmp/mut}/confirm
 git -C /repo worktree add --detach $wt HEAD >/dev/null 2>&1 || exit 2
 cd $wt
-res() { echo "{\"prop\":\"$prop\",\"k\":$k,\"applies\":$1,\"builds\":$2,\"suite\":\"$3\",\"demo_with_rc\":$4,\"demo_without_rc\":$5,\"head\":\"$(git -C /repo rev-parse --short HEAD)\",\"patch\":\"$(basename $patch)\"}" > /tmp/mut/confirm/$prop-$k.json; }
+res() { echo "{\"prop\":\"$prop\",\"k\":$k,\"applies\":$1,\"builds\":$2,\"suite\":\"$3\",\"demo_with_rc\":$4,\"demo_without_rc\":$5,\"head\":\"$(git -C /repo rev-parse --short HEAD)\",\"patch\":\"$(basename $patch)\"}" > ${MUT:-/tmp/mut}/confirm/$prop-$k.json; }
 if ! git apply $patch 2>/dev/null; then res false false "" -1 -1; cd /; git -C /repo worktree remove --force $wt; exit 0; fi
-if ! /venv/bin/python setup.py -q build_ext --inplace -j4 >/tmp/mut/confirm/$prop-$k.build.log 2>&1; then res true false "" -1 -1; cd /; git -C /repo worktree remove --force $wt; exit 0; fi
+if ! /venv/bin/python setup.py -q build_ext --inplace -j4 >${MUT:-/tmp/mut}/confirm/$prop-$k.build.log 2>&1; then res true false "" -1 -1; cd /; git -C /repo worktree remove --force $wt; exit 0; fi
 suite=$(PYTHONPATH=$wt/src /venv/bin/python -m pytest -q -p no:cacheprovider --timeout=900 --continue-on-collection-errors 2>&1 | tail -1 | sed 's/"//g')
-(cd /tmp && PYTHONPATH=$wt/src timeout 600 /venv/bin/python $src/demo.py >/tmp/mut/confirm/$prop-$k.with.log 2>&1); w=$?
+(cd /tmp && PYTHONPATH=$wt/src timeout 600 /venv/bin/python $src/demo.py >${MUT:-/tmp/mut}/confirm/$prop-$k.with.log 2>&1); w=$?
 git checkout -q -- . && /venv/bin/python setup.py -q build_ext --inplace -j4 >/dev/null 2>&1
-(cd /tmp && PYTHONPATH=$wt/src timeout 600 /venv/bin/python $src/demo.py >/tmp/mut/confirm/$prop-$k.without.log 2>&1); wo=$?
+(cd /tmp && PYTHONPATH=$wt/src timeout 600 /venv/bin/python $src/demo.py >${MUT:-/tmp/mut}/confirm/$prop-$k.without.log 2>&1); wo=$?
 res true true "$suite" $w $wo
 cd /; git -C /repo worktree remove --force $wt
